@@ -60,32 +60,13 @@ def r1_same_quantity(rep, ctx, RID1="C05.R1"):
         t = res.term(cfg.ast[r].value)
         if t[0] == "tuple" and len(t[1]) == 2 and t[1][1][0] == "call" and t[1][1][1] == ("param", op_i, "operation"):
             rets.append(r)
-    rep.floor("C05.R1", "returns applying the value operation", len(rets), 2)
-    # the comparison of the joined composing units
-    cmp_nodes = []
-    for nid in cfg.nodes("test"):
-        e = cfg.ast[nid]
-        if isinstance(e, ast.Compare) and len(e.ops) == 1 and isinstance(e.ops[0], (ast.NotEq, ast.Eq)):
-            l, r = res.term(e.left), res.term(e.comparators[0])
-            def cu(t):
-                if t[0] == "call" and t[1] == ("name", "len"):
-                    return False
-                return any(s[0] == "call" and s[1][0] == "attr" and s[1][2] == "GetComposingUnitsJoiningExponents" for s in walk(t))
-            if cu(l) and cu(r):
-                cmp_nodes.append((nid, "T" if isinstance(e.ops[0], ast.NotEq) else "F", l, r))
-    eq_nodes = []
-    for nid in cfg.nodes("test"):
-        e = cfg.ast[nid]
-        if isinstance(e, ast.Compare) and len(e.ops) == 1 and isinstance(e.ops[0], ast.Eq):
-            l, r = res.term(e.left), res.term(e.comparators[0])
-            if {l, r} == {("param", 1, fn.params[1]), ("param", 2, fn.params[2])}:
-                eq_nodes.append(nid)
-    if len(cmp_nodes) != 1:
-        rep.bad("C05.R1", "same-quantity:comparison", "the comparison of the joined composing units of both operands was not found: operands of different dimensions are combined", fn=fn)
-        return
-    nid, differ, l, r = cmp_nodes[0]
-    same = "F" if differ == "T" else "T"
-    # sides: one from each operand
+    rep.floor("C05.R1", "returns applying the value operation", len(rets), 1)
+
+    def cu(t):
+        if t[0] == "call" and t[1] == ("name", "len"):
+            return False
+        return any(s[0] == "call" and s[1][0] == "attr" and s[1][2] == "GetComposingUnitsJoiningExponents" for s in walk(t))
+
     def side(t):
         # root of the receiver chain: set(<q>.CreateCopyInstance(...).GetComposingUnitsJoiningExponents()) -> q
         out = set()
@@ -102,34 +83,62 @@ def r1_same_quantity(rep, ctx, RID1="C05.R1"):
                     break
             out.add(x[1] if x[0] == "param" else None)
         return out
-    sides_ok = {frozenset(side(l)), frozenset(side(r))} == {frozenset({1}), frozenset({2})}
+
+    # classify the test leaves by the *term* they evaluate (a comparison may be hoisted into a local)
+    kinds = {}
+    cu_pair = None
+    for nid in cfg.nodes("test"):
+        t = res.term(cfg.ast[nid])
+        if t[0] == "op" and t[1] in ("cmp:Eq", "cmp:NotEq") and len(t[2]) == 2:
+            l, r = t[2]
+            flipped = t[1] == "cmp:NotEq"  # key means "equal"
+            if cu(l) and cu(r):
+                kinds[nid] = (("units-equal",), flipped)
+                cu_pair = (l, r, nid)
+            elif {l, r} == {("param", 1, fn.params[1]), ("param", 2, fn.params[2])}:
+                kinds[nid] = (("quantities-equal",), flipped)
+            elif r == ("const", 0) and l[0] == "call" and l[1] == ("name", "len") and l[2] and cu(l[2][0]):
+                kinds[nid] = (("empty", frozenset(side(l[2][0]))), t[1] == "cmp:NotEq")
+        elif t[0] == "op" and t[1] == "cmp:Gt" and len(t[2]) == 2 and t[2][1] == ("const", 0) and t[2][0][0] == "call" and t[2][0][1] == ("name", "len") and t[2][0][2] and cu(t[2][0][2][0]):
+            kinds[nid] = (("empty", frozenset(side(t[2][0][2][0]))), True)
+    if cu_pair is None:
+        rep.bad("C05.R1", "same-quantity:comparison", "the comparison of the joined composing units of both operands was not found: operands of different dimensions are combined", fn=fn)
+        return
+    l, r, cnode = cu_pair
+
     def order_insensitive(t):
         return all(a[0] == "call" and a[1] in (("name", "set"), ("name", "frozenset"), ("name", "sorted"), ("name", "dict"), ("name", "Counter")) for a in alternatives(t))
     rep.check(order_insensitive(l) and order_insensitive(r), RID1, "same-quantity:order-insensitive", "the composing units are compared as sets: the order in which factors were multiplied does not matter",
-              "the joined composing units are compared as ordered sequences (%s vs %s): m*kg + kg*m is rejected although the dimensions agree" % (show(l, 50), show(r, 50)), node=cfg.ast[nid], fn=fn)
+              "the joined composing units are compared as ordered sequences (%s vs %s): m*kg + kg*m is rejected although the dimensions agree" % (show(l, 50), show(r, 50)), node=cfg.ast[cnode], fn=fn)
+    sides_ok = {frozenset(side(l)), frozenset(side(r))} == {frozenset({1}), frozenset({2})}
     rep.check(sides_ok, "C05.R1", "same-quantity:both-operands", "the comparison is between the composing units of the left and of the right operand", "the composing-unit comparison does not involve both operands: %s vs %s" % (show(l, 60), show(r, 60)), fn=fn)
+    # path-sensitive: can the value operation be reached without (quantities equal) / (units equal) / (one side empty)?
+    states = cfg.consistent_states(lambda n: kinds.get(n))
+    bad_paths = []
     for rn in rets:
-        dom = cfg.dominating_edges(rn)
-        ok = any((e, "T") in dom for e in eq_nodes) or cfg.dominated_by_node(rn, lambda k, a: a is cfg.ast[nid])
-        rep.check(ok, "C05.R1", "same-quantity:return:%s" % norm(ast.unparse(cfg.ast[rn]))[:50] + ":%d" % rets.index(rn),
-                  "the value operation is applied only after the quantities were found equal or their composing units compared",
-                  "a path applies the value operation without comparing the composing units of the operands", node=cfg.ast[rn], fn=fn)
-    # in the differ branch: only emptiness tests continue
-    empt_edges = set()
-    for n2 in cfg.nodes("test"):
-        e = cfg.ast[n2]
-        if n2 in cfg.reach(nid, start_edges={differ}) and isinstance(e, ast.Compare) and len(e.ops) == 1 and isinstance(e.ops[0], ast.Eq) and isinstance(e.comparators[0], ast.Constant) and e.comparators[0].value == 0 \
-                and isinstance(e.left, ast.Call) and isinstance(e.left.func, ast.Name) and e.left.func.id == "len":
-            inner = res.term(e.left.args[0])
-            if inner in (l, r):
-                empt_edges |= {(n2, b, lab) for (b, lab) in cfg.succ[n2] if lab == "T"}
-    r_ = cfg.reach(nid, avoid_edges=empt_edges, start_edges={differ})
-    raises = {ast.unparse(cfg.ast[x].exc.func if isinstance(cfg.ast[x].exc, ast.Call) else cfg.ast[x].exc) for x in r_ if cfg.kind[x] == "raise" and cfg.ast[x].exc is not None}
-    ok = cfg.EXIT not in r_ and raises == {"InvalidOperationError"}
-    rep.check(ok, "C05.R1", "same-quantity:differ-must-raise", "with differing composing units every arm that is not the dimensionless exemption must-raise InvalidOperationError",
-              "with differing composing units a path other than 'one side has no units' reaches the value operation%s" % ("" if cfg.EXIT in r_ else " or raises %s" % sorted(raises)),
-              node=cfg.ast[nid], fn=fn, facts={"entry": fn.qual, "offending_exit": "return after the differing-units branch"})
-    rep.check(len(empt_edges) <= 2, "C05.R1", "same-quantity:exemptions", "at most the two dimensionless exemptions continue after a mismatch", "more than two non-raising arms after a mismatch", fn=fn)
+        for asg in states.get(rn, ()):
+            d = dict(asg)
+            if d.get(("quantities-equal",)) is True or d.get(("units-equal",)) is True:
+                continue
+            if any(k[0] == "empty" and v for k, v in d.items()):
+                continue
+            bad_paths.append((rn, d))
+    rep.check(not bad_paths, "C05.R1", "same-quantity:differ-must-raise",
+              "the value operation is reached only with equal quantities, equal composing units, or one dimensionless side; every other path raises",
+              "the value operation can be reached although the composing units differ (or were never compared) and neither side is dimensionless: %s" % (sorted(str(d) for _, d in bad_paths)[:2]),
+              node=cfg.ast[cnode], fn=fn, facts={"entry": fn.qual, "offending_exit": "return applying the value operation"})
+    # what the rejecting arm raises
+    raised = set()
+    for x in cfg.nodes("raise"):
+        for asg in states.get(x, ()):
+            d = dict(asg)
+            if d.get(("units-equal",)) is False and cfg.ast[x].exc is not None:
+                exc = cfg.ast[x].exc
+                raised.add(ast.unparse(exc.func if isinstance(exc, ast.Call) else exc))
+    rep.check(raised == {"InvalidOperationError"}, "C05.R1", "same-quantity:raises-InvalidOperationError", "a mismatch raises InvalidOperationError",
+              "a composing-unit mismatch raises %s" % (sorted(raised) or "nothing"), fn=fn)
+    n_empty = len({k for k, _ in kinds.values() if k[0] == "empty"})
+    rep.check(n_empty <= 2, "C05.R1", "same-quantity:exemptions", "at most the two dimensionless exemptions continue after a mismatch", "more than two kinds of non-raising arms after a mismatch", fn=fn)
 
 
 # ------------------------------------------------------------------------------------------------
@@ -142,36 +151,70 @@ def _eq_facts(cfg, res, node):
     return out
 
 
+def _getinfo_helper(m, fn, alt):
+    """A call of a lookup helper (nested def or method of the same class) -> (helper Func, {param name: arg term})."""
+    if alt[0] != "call":
+        return None
+    g = None
+    if alt[1][0] == "localdef":
+        g = m.funcs.get(fn.qual + "." + alt[1][1])
+    elif alt[1][0] == "field":
+        g = m.lookup(fn.cls, alt[1][1]) if fn.cls else None
+        if g is not None and g.name in ("GetInfo",):
+            g = None
+    if g is None:
+        return None
+    params = [p for p in g.params if p not in ("self", "cls")]
+    binding = dict(zip(params, alt[2]))
+    binding.update({k: v for k, v in alt[3]})
+    return g, binding
+
+
+def _helper_facts(m, g, rep=None):
+    """For a lookup helper: every non-None return is unit_to_unit_info[<unit param>] under a
+    quantity-type equality fact.  Returns (ok, name of the unit parameter, name of the quantity-type
+    parameter or None when it reads the enclosing function's variable)."""
+    hcfg = CFG(g.node)
+    hres = Resolver(m, g)
+    ok = True
+    unit_p = None
+    qt_p = None
+    n = 0
+    for r in hcfg.returns():
+        node = hcfg.ast[r]
+        if node.value is None or (isinstance(node.value, ast.Constant) and node.value.value is None):
+            continue
+        n += 1
+        t = hres.term(node.value)
+        alts = alternatives(t)
+        origin = all(a[0] == "sub" and _is_field(a[1], "unit_to_unit_info") and a[2][0] == "param" for a in alts)
+        if origin:
+            unit_p = alts[0][2][2]
+        qt_fact = False
+        for l, r_ in _eq_facts(hcfg, hres, r):
+            for x, y in ((l, r_), (r_, l)):
+                if y[0] == "attr" and y[2] == "quantity_type" and y[1] in alts:
+                    if x[0] == "param":
+                        qt_fact = True
+                        qt_p = x[2]
+                    elif _is_qt(x):
+                        qt_fact = True
+        good = origin and qt_fact
+        ok = ok and good
+        if rep is not None:
+            rep.check(good, "C05.R2", "GetInfo.helper:%s" % norm(ast.unparse(node)), "the direct lookup returns unit_to_unit_info[<the unit asked for>] only when its quantity type equals the requested one",
+                      "the direct lookup can return %s %s" % (show(t), "without a quantity-type test: a unit of another quantity type is accepted" if not qt_fact else "for another key than the unit asked for"), node=node, fn=g)
+    return ok and n > 0, unit_p, qt_p, n
+
+
 def r2_getinfo(rep, ctx):
     m = ctx.model
     fn = m.method("UnitDatabase", "GetInfo")
-    helper = m.funcs.get(fn.qual + ".TryToGetUnitInfoFromUnit")
     n = 0
-    helper_ok = None
-    if helper is not None:
-        hcfg = CFG(helper.node)
-        hres = Resolver(m, helper)
-        helper_ok = True
-        for r in hcfg.returns():
-            node = hcfg.ast[r]
-            if node.value is None or (isinstance(node.value, ast.Constant) and node.value.value is None):
-                continue
-            n += 1
-            t = hres.term(node.value)
-            ok_origin = all(a[0] == "sub" and _is_field(a[1], "unit_to_unit_info") for a in alternatives(t))
-            key_is_param = ok_origin and all(a[2] == ("param", 0, helper.params[0]) for a in alternatives(t))
-            qt_fact = False
-            for l, r_ in _eq_facts(hcfg, hres, r):
-                for x, y in ((l, r_), (r_, l)):
-                    if y[0] == "attr" and y[2] == "quantity_type" and y[1] in alternatives(t) and _is_qt(x):
-                        qt_fact = True
-            ok = ok_origin and key_is_param and qt_fact
-            helper_ok = helper_ok and ok
-            rep.check(ok, "C05.R2", "GetInfo.helper:%s" % norm(ast.unparse(node)), "the direct lookup returns unit_to_unit_info[<the unit asked for>] only when its quantity type equals the requested one",
-                      "the direct lookup can return %s %s" % (show(t), "without a quantity-type test: a unit of another quantity type is accepted" if not qt_fact else "for another key than the unit asked for"), node=node, fn=helper)
     cfg = CFG(fn.node)
-    res = Resolver(m, fn)
+    res = Resolver(m, fn, inline=False)
     unit_i = fn.params.index("unit")
+    helpers_seen = {}
     for r in cfg.returns():
         node = cfg.ast[r]
         if node.value is None:
@@ -181,16 +224,24 @@ def r2_getinfo(rep, ctx):
         key = "GetInfo:%s@%d" % (norm(ast.unparse(node)), sum(1 for x in cfg.returns() if x < r))
         problems = []
         for a in alternatives(t):
-            if a[0] == "call" and a[1][0] == "localdef" and helper is not None and a[1][1] == helper.name:
+            h = _getinfo_helper(m, fn, a)
+            if h is not None:
+                g, binding = h
+                if g.qual not in helpers_seen:
+                    helpers_seen[g.qual] = _helper_facts(m, g, rep)
+                    n += helpers_seen[g.qual][3]
+                helper_ok, unit_p, qt_p, _ = helpers_seen[g.qual]
                 # helper result: must be non-None here, and the argument is the unit or its legacy rewrite
-                nn = any(isinstance(e, ast.Compare) and isinstance(e.ops[0], ast.IsNot) and v and res.term(e.left) == t for e, v in cfg.facts_at(r)) or \
-                    any(isinstance(e, ast.Compare) and isinstance(e.ops[0], ast.Is) and not v and res.term(e.left) == t for e, v in cfg.facts_at(r))
-                arg = a[2][0] if a[2] else None
+                arg = binding.get(unit_p) if unit_p else None
                 arg_ok = arg is not None and all(x == ("param", unit_i, "unit") or _is_legacy_fixed(x, unit_i) for x in alternatives(arg))
                 if not helper_ok:
                     problems.append("comes from the direct lookup, which does not establish both facts")
                 if not arg_ok:
                     problems.append("the direct lookup is made for %s, not for the requested unit or its legacy rewrite" % (show(arg) if arg else None))
+                if qt_p is not None:
+                    qa = binding.get(qt_p)
+                    if qa is None or not _is_qt(qa):
+                        problems.append("the direct lookup is made for quantity type %s, not the requested one" % (show(qa) if qa else None))
             elif a[0] == "elem" and all(x[0] == "sub" and _is_field(x[1], "quantity_types") and _is_qt(x[2]) for x in alternatives(a[1])):
                 # loop variable over the requested quantity type's list: needs a unit fact
                 uf = None
@@ -260,25 +311,61 @@ def r3_check_category_unit(rep, ctx):
     r = cfg.reach(cfg.ENTRY, avoid_edges=verdict_edges)
     rep.check(bool(verdict_edges) and cfg.EXIT not in r, "C05.R3", "CheckCategoryUnit:exit-needs-positive-verdict", "every normal exit passes a positive verdict (memo hit true, or valid == True)",
               "CheckCategoryUnit can return normally without a positive verdict: an invalid (category, unit) pair is accepted", fn=fn)
+    # where the verdict is decided: in this function, or in a helper the verdict variable is assigned from
+    sites_fn = fn
     assigns = [st for st in own_statements(fn.node) if isinstance(st, ast.Assign) and isinstance(st.targets[0], ast.Name) and st.targets[0].id == "valid"]
-    rep.floor("C05.R3", "assignments of the verdict", len(assigns), 2)
-    for st in assigns:
-        par = st._parent
-        val = st.value.value if isinstance(st.value, ast.Constant) else None
-        if isinstance(par, ast.ExceptHandler):
-            rep.check(val is False, "C05.R3", "CheckCategoryUnit:handler-verdict", "the failure handler records a negative verdict", "the failure handler of the unit check records %r: a unit outside the category's quantity type is accepted (and memoised)" % val, node=st, fn=fn)
-        elif isinstance(par, ast.Try) and st in par.body:
-            idx = par.body.index(st)
-            before = [c for b in par.body[:idx] for c in ast.walk(b) if isinstance(c, ast.Call) and isinstance(c.func, ast.Attribute) and c.func.attr in ("CheckQuantityTypeUnit", "GetInfo")]
-            args_ok = False
-            for c in before:
-                a = [res.term(x) for x in c.args]
-                if len(a) >= 2 and a[1] == ("param", fn.params.index("unit"), "unit") and any(s[0] == "call" and s[1][0] in ("field", "attr") and "GetCategoryInfo" in str(s[1]) for s in walk(a[0])):
-                    args_ok = True
-            rep.check(val is True and args_ok, "C05.R3", "CheckCategoryUnit:positive-after-check", "the positive verdict is recorded only after the unit was checked against the category's quantity type",
-                      "the positive verdict is recorded without a preceding check of (quantity type of the category, unit)", node=st, fn=fn)
+    helper_call = [st for st in assigns if isinstance(st.value, ast.Call)]
+    if helper_call and len(assigns) == 1:
+        c = helper_call[0].value
+        g = m.lookup("UnitDatabase", c.func.attr) if isinstance(c.func, ast.Attribute) and isinstance(c.func.value, ast.Name) and c.func.value.id == fn.params[0] else None
+        if g is None:
+            raise AnalysisError("CheckCategoryUnit: the verdict comes from %s, which cannot be resolved" % ast.unparse(c))
+        passed = [ast.unparse(a) for a in c.args]
+        if passed != ["category", "unit"] or g.params[1:3] != ["category", "unit"]:
+            raise AnalysisError("CheckCategoryUnit: the verdict helper is not called with (category, unit)")
+        sites_fn = g
+    sfn = sites_fn
+    scfg = CFG(sfn.node)
+    sres = Resolver(m, sfn)
+    # verdict sites: `valid = <bool>` or `return <bool>` in the deciding function
+    sites = []
+    for st in own_statements(sfn.node):
+        if isinstance(st, ast.Assign) and isinstance(st.targets[0], ast.Name) and st.targets[0].id == "valid" and isinstance(st.value, ast.Constant):
+            sites.append((st, st.value.value))
+        elif sfn is not fn and isinstance(st, ast.Return) and isinstance(st.value, ast.Constant) and isinstance(st.value.value, bool):
+            sites.append((st, st.value.value))
+    rep.floor("C05.R3", "verdict sites", len(sites), 2)
+    checks = []
+    for c in own_nodes(sfn.node):
+        if isinstance(c, ast.Call) and isinstance(c.func, ast.Attribute) and c.func.attr in ("CheckQuantityTypeUnit", "GetInfo"):
+            a = [sres.term(x) for x in c.args]
+            if len(a) >= 2 and a[1] == ("param", sfn.params.index("unit"), "unit") and any(s2[0] == "call" and "GetCategoryInfo" in str(s2[1]) for s2 in walk(a[0])):
+                checks.append(scfg.node_of(c))
+    normal_out = set()
+    for cn in checks:
+        normal_out |= {(cn, b, l) for (b, l) in scfg.succ[cn] if l != "exc"}
+    for st, val in sites:
+        n_ = scfg.node_of(st)
+        in_handler = False
+        p_ = getattr(st, "_parent", None)
+        while p_ is not None and p_ is not sfn.node:
+            if isinstance(p_, ast.ExceptHandler):
+                in_handler = True
+            p_ = getattr(p_, "_parent", None)
+        if val is True:
+            ok = bool(checks) and n_ not in scfg.reach(scfg.ENTRY, avoid_edges=normal_out)
+            rep.check(ok, "C05.R3", "CheckCategoryUnit:positive-after-check", "the positive verdict is recorded only after the unit was checked against the category's quantity type",
+                      "a positive verdict can be recorded without the check of (quantity type of the category, unit) having returned normally", node=st, fn=sfn)
+        elif val is False:
+            rep.check(in_handler, "C05.R3", "CheckCategoryUnit:handler-verdict", "the negative verdict is recorded in the failure handler of the unit check",
+                      "a negative verdict is recorded outside the failure handler", node=st, fn=sfn)
         else:
-            rep.bad("C05.R3", "CheckCategoryUnit:verdict:%s" % norm(ast.unparse(st)), "the verdict is assigned outside the checked region", node=st, fn=fn)
+            rep.bad("C05.R3", "CheckCategoryUnit:verdict:%s" % norm(ast.unparse(st)), "the verdict is not a boolean constant", node=st, fn=sfn)
+    # a handler must not record a positive verdict
+    for st, val in sites:
+        p_ = getattr(st, "_parent", None)
+        if isinstance(p_, ast.ExceptHandler) and val is True:
+            rep.bad("C05.R3", "CheckCategoryUnit:handler-verdict", "the failure handler of the unit check records True: a unit outside the category's quantity type is accepted (and memoised)", node=st, fn=sfn)
     # what is memoised is the verdict
     memo = [st for st in own_statements(fn.node) if isinstance(st, ast.Assign) and isinstance(st.targets[0], ast.Subscript) and "_category_unit_valid" in ast.unparse(st.targets[0])]
     ok = len(memo) == 1 and isinstance(memo[0].value, ast.Name) and memo[0].value.id == "valid" and res.term(memo[0].targets[0].slice) == ("tuple", (("param", 1, "category"), ("param", 2, "unit")))
